@@ -46,6 +46,22 @@ def run(repo, rep, tier):
     _loader(repo, rep)
 
 
+def cook_check_never_returns_uncooked(repo):
+    f = repo.func(BF + "cook_check")
+    for p in P.enum_paths(f.node.body):
+        if p[-1][0] not in ("return", "end"):
+            continue
+        calls = [src(c) for c, _ in P.calls_on_path(p)]
+        cooked = any(c.startswith("self.cook(") for c in calls)
+        conds = [(src(e[1]), e[2]) for e in p if e[0] == "cond"]
+        flag_up = L.cond_holds(conds, "self._cooked is False", False) or \
+            L.cond_holds(conds, "self._cooked", True) or \
+            L.cond_holds(conds, "not self._cooked", False)
+        if not (cooked or flag_up):
+            return False, "path: " + P.path_text(p, 10)
+    return True, ""
+
+
 def fresh_search_path(repo):
     """The list that gets the template's directory prepended must be the
     template's own (a copy), never the caller's / the loader's list."""
@@ -148,6 +164,12 @@ def _cook_check(repo, rep):
               "R16.1", site, "the modification time is compared before the "
               "compiled flag is consulted", construct="check-order", where=wh,
               detail=str(tests))
+    okr, detail = cook_check_never_returns_uncooked(repo)
+    rep.check(okr, "R16.1", site, "cook_check returns only after the "
+              "compiled flag was found up or cook() has run on that path "
+              "(whatever the modification time says: another thread may be "
+              "compiling)", construct="no-return-uncooked", where=wh,
+              detail=detail)
     rd = repo.func(BF + "read")
     t = L.text(rd.node)
     top = [src(x) for x in rd.node.body]
